@@ -281,10 +281,24 @@ var worldSeq atomic.Int64
 // updatesDone counts finished CRL update runs (hook "checker.update.done").
 var updatesDone atomic.Int64
 
+var extraHook atomic.Pointer[func(name string)]
+
+// SetExtraHook installs (nil: removes) a callback that sees every verif hook site besides the engine's own use.
+func SetExtraHook(f func(name string)) {
+	if f == nil {
+		extraHook.Store(nil)
+		return
+	}
+	extraHook.Store(&f)
+}
+
 func init() {
 	verifhook.Set(func(name string) {
 		if name == "checker.update.done" {
 			updatesDone.Add(1)
+		}
+		if f := extraHook.Load(); f != nil {
+			(*f)(name)
 		}
 	})
 }
